@@ -134,7 +134,7 @@ def state_requests(name):
     return reqs
 
 
-STATES = ('empty', 'flat', 'nested')
+STATES = ('nested', 'flat', 'empty')      # enumeration order: the richest state first
 
 # =========================================================================================
 # 2. Request representation and WSGI call
@@ -1396,3 +1396,270 @@ class Worker(EnumWorker):
 
 def make_worker(base_image, *args):
     return Worker(base_image, *args)
+
+
+# =========================================================================================
+# 10. Enumeration, aggregation, evidence
+# =========================================================================================
+
+def composable(part, a, b):
+    pa, pb = a[0], b[0]
+    if part == 'body':
+        n = min(len(pa), len(pb))
+        return pa[:n] != pb[:n]
+    return pa != pb
+
+
+def strip(op, part):
+    """Drop the label fields of an op (keep what build_case needs)."""
+    return tuple(op[:3]) if part != 'body' else tuple(op[:3])
+
+
+def depth1_cases(corpus_, states):
+    for st in states:
+        for bi, b in enumerate(corpus_):
+            yield (bi, st, 'base', ())
+            for part in PARTS:
+                for op in part_ops(b, part):
+                    yield (bi, st, part, (op,))
+
+
+def depth2_cases(corpus_, states, parts=PARTS):
+    for st in states:
+        for bi, b in enumerate(corpus_):
+            for part in parts:
+                ops = part_ops(b, part, d2=True)
+                for i in range(len(ops)):
+                    for j in range(i + 1, len(ops)):
+                        if composable(part, ops[i], ops[j]):
+                            yield (bi, st, part, (ops[i], ops[j]))
+
+
+def route_of(base):
+    return '%s %s' % (base['method'], base['route'])
+
+
+def signature(base, state, part, ops, kind, msg, base_viol):
+    """One defect = one signature: (outcome, method + route template, position class, junk
+    class); a violation already shown by the unmutated request of the same state is filed
+    under that base request; a state change is keyed by the tables that changed."""
+    r = route_of(base)
+    if kind.startswith('state-changed'):
+        tables = '+'.join(sorted(set(re.findall(r'(\w+): -', msg)))) or 'rows'
+        return '%s:%s:%s' % (kind, r, tables)
+    if part == 'base':
+        return '%s:%s:base[%s]@%s' % (kind, r, base['id'], state)
+    labels = [op_label(base, part, op) for op in ops]
+    if part == 'envelope':
+        # a changed method is a different operation: name it in place of the base's method
+        for (pc, opn, jc), op in zip(labels, ops):
+            if opn == 'method':
+                r = '%s %s' % (jc, base['route'])
+        labels = [l for l in labels if l[1] != 'method'] or [('method', 'method', '')]
+    pos = ' + '.join(jc if pc == 'body' else '%s:%s' % (pc, jc) if jc else pc
+                     for pc, _, jc in labels)
+    sep = '' if pos.startswith('?') else ' '
+    return '%s:%s%s%s' % (kind, r, sep, pos)
+
+
+def _drive(ctx, cases_iter, on_result, base_img, chunk=60, deadline=None):
+    """Feed case descriptors lazily to the worker pool; results come back in case order."""
+    import collections
+    from vp.workers import Pool
+    pool = Pool(ctx.workers, 'vp.props.c15', 'make_worker', (base_img,))
+    pending = collections.deque()
+    stopped = [False]
+
+    def chunks():
+        buf = []
+        for c in cases_iter:
+            if deadline is not None and ctx.elapsed() > deadline:
+                stopped[0] = True
+                break
+            buf.append(c)
+            if len(buf) >= chunk:
+                pending.append(buf)
+                yield buf
+                buf = []
+        if buf:
+            pending.append(buf)
+            yield buf
+    try:
+        for res in pool.map(chunks()):
+            cs = pending.popleft()
+            for c, r in zip(cs, res):
+                on_result(c, r)
+    finally:
+        pool.close()
+    return not stopped[0]
+
+
+def run(ctx):
+    import collections
+    from vp.boot import make_base_image
+    corp = get_corpus()
+    base_img = make_base_image()
+    ctx.level = 'exploration'
+    budget = ctx.budget or (115 if ctx.quick else 1150)
+
+    evaluations = [0]
+    per_depth = collections.Counter()
+    cells = set()
+    status_by_route = collections.defaultdict(collections.Counter)
+    status_by_part = collections.defaultdict(collections.Counter)
+    status_by_state = collections.defaultdict(collections.Counter)
+    klass = collections.Counter()
+    samples = []
+    base_viols = {}          # (bi, state) -> {(kind, detail)}
+    single_viols = {}        # (bi, state, part, op[:3]) -> {kind: signature}
+    nviol = [0]
+
+    def on_result(c, r):
+        if r is None:
+            return
+        bi, st, part, ops = c
+        base = corp[bi]
+        status, viols, det = r
+        evaluations[0] += 1
+        per_depth[len(ops)] += 1
+        route = route_of(base)
+        status_by_route[route][str(status)] += 1
+        status_by_part[part][str(status)] += 1
+        status_by_state[st][str(status)] += 1
+        if part != 'base':
+            klass['2xx' if status < 300 else '3xx' if status < 400 else '4xx'
+                  if status < 500 else '5xx'] += 1
+            for op in ops:
+                cells.add((route, op_label(base, part, op), status))
+        if len(samples) < 12 and part != 'base' and evaluations[0] % 3001 == 7:
+            rq = build_case(base, part, ops)
+            samples.append({'base': base['id'], 'state': st, 'part': part,
+                            'mutation': [list(op_label(base, part, op)) for op in ops],
+                            'request': '%s %s%s' % (rq['method'], rq['path'][:200],
+                                                    ('?' + rq['query'][:300]) if rq['query']
+                                                    else ''),
+                            'body': (rq['body'] or '')[:300], 'status': status})
+        for kind, msg in viols:
+            nviol[0] += 1
+            key = (kind, det)
+            if part == 'base':
+                base_viols.setdefault((bi, st), set()).add(key)
+                sig = signature(base, st, part, ops, kind, msg, None)
+            elif key in base_viols.get((bi, st), ()) and not kind.startswith('state-changed'):
+                sig = signature(base, st, 'base', (), kind, msg, None)
+            else:
+                sig = None
+                if len(ops) == 2:
+                    for op in ops:
+                        s1 = single_viols.get((bi, st, part, repr(op[:3])), {}).get(kind)
+                        if s1:
+                            sig = s1
+                            break
+                if sig is None:
+                    sig = signature(base, st, part, ops, kind, msg, None)
+                if len(ops) == 1:
+                    single_viols.setdefault((bi, st, part, repr(ops[0][:3])), {})[kind] = sig
+            rq = build_case(base, part, ops)
+            text = '[%s] %s %s%s (base %s, state %s, mutation %s): %s' % (
+                sig, rq['method'], rq['path'][:120],
+                ('?' + rq['query'][:200]) if rq['query'] else '', base['id'], st,
+                [op_label(base, part, op) for op in ops], msg)
+            ctx.violation(sig, text, {
+                'state': st, 'setup': state_requests(st), 'request': rq, 'kind': kind,
+                'status': status, 'base': base['id'],
+                'mutation': [list(op_label(base, part, op)) for op in ops]})
+
+    # ---- depth 1: every single mutation, every state --------------------------------------
+    done1 = _drive(ctx, depth1_cases(corp, STATES), on_result, base_img,
+                   deadline=budget * (0.97 if ctx.quick else 0.35))
+    if not done1:
+        ctx.cap('depth 1 stopped by the time budget after %d cases' % evaluations[0])
+    # ---- depth 2: every pair inside one request part (thorough tier) ------------------------
+    done2 = None
+    d2_states = []
+    if not ctx.quick and done1:
+        d2_states = ['nested', 'flat']
+        done2 = _drive(ctx, depth2_cases(corp, d2_states), on_result, base_img,
+                       deadline=budget)
+        if not done2:
+            ctx.cap('depth 2 stopped by the time budget after %d pair cases (order: state '
+                    'nested then flat; per base: path, query, envelope, body)' % per_depth[2])
+
+    ctx.coverage.update({
+        'evaluations': evaluations[0],
+        'distinct_nontrivial': len(cells),
+        'rule': 'deviation-bounded exhaustive enumeration: %d valid base requests (one per '
+                'route x method x body/query format) x 3 database states x every single '
+                'mutation (operators: junk value at every JSON node / query parameter / query '
+                'token / path segment / header, delete, unknown key, duplicate key / item / '
+                'parameter, conflicting parameter, key renames, grammar-aware tweaks of valid '
+                'values, raw-body and content-length damage, every method, every microversion '
+                'and a list of malformed version headers, Accept / Content-Type variants, '
+                'extra headers); thorough adds every composable pair of (reduced-junk) '
+                'mutations inside one request part. A case is non-trivial when it is a mutated '
+                'request; distinct = distinct (route, method, position class, operator, junk '
+                'class, status) cells' % len(corp),
+        'samples': samples,
+        'exhaustive': bool(done1 and (ctx.quick or done2)),
+        'depth1_cases': per_depth[1] + per_depth[0], 'depth2_cases': per_depth[2],
+        'depth1_complete': bool(done1), 'depth2_complete': done2,
+        'depth2_states': d2_states,
+        'base_requests': len(corp), 'states': len(STATES),
+        'operations_covered': len({route_of(b) for b in corp}),
+        'mutations_answered': dict(klass),
+        'status_by_route': {k: dict(v) for k, v in sorted(status_by_route.items())},
+        'status_by_part': {k: dict(v) for k, v in sorted(status_by_part.items())},
+        'status_by_state': {k: dict(v) for k, v in sorted(status_by_state.items())},
+        'violating_cases': nviol[0],
+        'junk_set_body': [j[0] for j in BODY_JUNK], 'junk_set_query': [j[0] for j in QUERY_JUNK],
+        'junk_set_path': [j[0] for j in PATH_JUNK],
+        'depth2_junk': {'body': BODY_JUNK_D2, 'query': QUERY_JUNK_D2, 'path': PATH_JUNK_D2},
+    })
+    ctx.assumptions += [
+        'requests are delivered as WSGI environs (percent-decoded PATH_INFO as latin-1, raw '
+        'QUERY_STRING, headers as given); what a front-end HTTP server would reject before WSGI '
+        'is not modelled',
+        'a Content-Length larger than the body is an incomplete request (a server waits for the '
+        'rest), not an input: only truthful, short, non-numeric, negative, empty and missing '
+        'lengths are enumerated',
+        'noauth2 test double supplies identity (token admin, roles admin+service); 401 responses '
+        'are exempt from the error-format oracle as errors.inc says',
+        'JSON error format is demanded when Accept is absent, */* or prefers application/json; '
+        '`code` is demanded when the requested microversion is a supported version >= 1.23 and '
+        'the status is not 406',
+        'every reachable state is represented by three: empty, flat populated, nested + nested '
+        'sharing provider',
+        'pairs (depth 2) use a reduced junk set (one representative per class) and are taken '
+        'inside one request part only',
+        'SQLite stands in for the DBMS: integer-range and text-encoding failures are those of '
+        'SQLite / pysqlite',
+    ]
+
+
+def replay(ctx, data):
+    from vp.boot import Harness
+    from vp.snapshot import Dump
+    h = Harness()
+    for r in data['setup']:
+        resp = wsgi_call(h.app, r)
+        if resp.status >= 400:
+            from vp.check import HarnessError
+            raise HarnessError('replay setup failed: %s %s -> %s' % (
+                r['method'], r['path'], resp.status))
+    before = Dump(h.dbfile)
+    req = data['request']
+    resp = wsgi_call(h.app, req)
+    after = Dump(h.dbfile)
+    changed = ''
+    if resp.status in MALFORMED and \
+            before.core(gens=True, aux=True) != after.core(gens=True, aux=True):
+        changed = '; '.join(diff(before, after, gens=True, aux=True)) or 'core'
+    viols = judge(req, resp, changed)
+    line = '%s %s%s -> %s %s' % (req['method'], req['path'][:200],
+                                 ('?' + req['query'][:300]) if req.get('query') else '',
+                                 resp.status, resp.raw[:400].decode('utf-8', 'replace'))
+    want = data.get('kind')
+    hit = [v for v in viols if v[0] == want] or viols
+    if hit:
+        return False, '%s\n  %s' % (line, '; '.join('%s: %s' % v for v in hit))
+    return True, line
